@@ -6,11 +6,14 @@ import (
 	"os"
 	"strings"
 
+	gnarklogger "github.com/consensys/gnark/logger"
+
 	"verifsim/checks"
 	"verifsim/engine"
 )
 
 func main() {
+	gnarklogger.Disable()
 	o := engine.ParseFlags()
 	chk := checks.Get(o.Prop)
 	if chk == nil {
